@@ -41,4 +41,64 @@ def fieldOf : DType → Field
   | .complex128 => .doubleData
   | .str => .stringData
 
+/-- `spox._utils.tensor_type_to_dtype(e)` as executed on this run for e = 0..31 (`none`: raised, or a numpy
+    element type outside the 16 of the statement - those enums are listed in `otherEnums`). -/
+def dtypeOfEnum : Nat → Option DType
+  | 1 => some .float32
+  | 2 => some .uint8
+  | 3 => some .int8
+  | 4 => some .uint16
+  | 5 => some .int16
+  | 6 => some .int32
+  | 7 => some .int64
+  | 8 => some .str
+  | 9 => some .bool
+  | 10 => some .float16
+  | 11 => some .float64
+  | 12 => some .uint32
+  | 13 => some .uint64
+  | 14 => some .complex64
+  | 15 => some .complex128
+  | 16 => some .bfloat16
+  | _ => none
+
+def otherEnums : List Nat := [17, 18, 19, 20, 21, 22, 23, 24, 25, 26]
+
+/-- `dtype_to_tensor_type(<spelling>)` as executed on this run: aliases, byte orders, string widths, Python
+    builtins (spelling, canonical element type, enum; 0 = raised). -/
+def aliases : List (String × DType × Nat) := [
+  ("int", .int64, 7),
+  ("float", .float64, 11),
+  ("bool", .bool, 9),
+  ("str", .str, 8),
+  ("np.longlong", .int64, 7),
+  ("np.intc", .int32, 6),
+  ("np.short", .int16, 5),
+  ("np.byte", .int8, 3),
+  ("np.ubyte", .uint8, 2),
+  ("np.ushort", .uint16, 4),
+  ("np.uintc", .uint32, 12),
+  ("np.ulonglong", .uint64, 13),
+  ("np.half", .float16, 10),
+  ("np.single", .float32, 1),
+  ("np.double", .float64, 11),
+  ("np.csingle", .complex64, 14),
+  ("np.cdouble", .complex128, 15),
+  ("np.bool_", .bool, 9),
+  ("np.str_", .str, 8),
+  ("'i8'", .int64, 7),
+  ("'>i4'", .int32, 6),
+  ("'<f4'", .float32, 1),
+  ("'>f8'", .float64, 11),
+  ("'U3'", .str, 8),
+  ("'<U1'", .str, 8),
+  ("'?'", .bool, 9),
+  ("'e'", .float16, 10),
+  ("np.dtype('>u2')", .uint16, 4),
+  ("np.zeros(1, np.int8).dtype", .int8, 3),
+  ("np.float32(1).dtype", .float32, 1),
+  ("np.int_", .int64, 7),
+  ("np.uint", .uint64, 13)
+]
+
 end Generated.TensorEnum
